@@ -88,6 +88,8 @@ type Chain struct {
 	// panicked on) by CometBFT.
 	ValSetErr error
 	Halted    *Halt
+	// LastEndBlock is the response of the most recent EndBlock.
+	LastEndBlock abci.ResponseEndBlock
 	AppHash   []byte
 	Blocks    []BlockRecord
 	cur       *BlockRecord
@@ -277,6 +279,7 @@ func (c *Chain) EndBlock() (res abci.ResponseEndBlock) {
 	if c.Halted != nil {
 		return
 	}
+	c.LastEndBlock = res
 	if c.cur != nil {
 		c.cur.ValUpdates = res.ValidatorUpdates
 		c.cur.ConsParams = res.ConsensusParamUpdates
